@@ -31,6 +31,8 @@ func init() {
 				NeedCounters: []string{"best-effort-returned-at-once"}},
 			{Name: "socket-options-reach-existing-dialers", Mode: "enum", Reset: kit.ResetGlobals, Body: sockOptsExisting,
 				NeedCounters: []string{"passed-on-to-existing-dialer"}},
+			{Name: "surveyor-readqlen-per-context", Mode: "enum", Reset: kit.ResetGlobals, Body: surveyorQLen,
+				NeedCounters: []string{"responses-kept-up-to-qlen"}},
 			{Name: "sub-readqlen-stays-in-effect", Mode: "enum", Reset: kit.ResetGlobals, Body: subQLen,
 				NeedCounters: []string{"overflowed-to-exactly-qlen", "reconfigured-with-a-full-queue"}},
 		}
@@ -383,4 +385,69 @@ func sockOptsExisting() {
 	}
 	kit.Observe("%s %s dials=%d", k.Name, opt, ep.NumDials())
 	kit.Must("Close", func() { _ = s.Close() })
+}
+
+
+// surveyorQLen: the receive queue length of a SURVEYOR socket and of an opened context are set to
+// different values (either may be the smaller one); each then runs a survey that is answered by
+// more responses than its queue holds while nobody receives.  GetOption answers what was set, and
+// each of them keeps exactly as many responses as its own length says - not the other's.
+func surveyorQLen() {
+	qs := [][2]int{{2, 5}, {5, 2}, {1, 3}}[kit.ChooseFree(3)] // {socket, context}
+	onCtx := kit.ChooseFree(2) == 1
+	k := kinds.ByName("surveyor")
+	x := k.Open("c19sq", true, false)
+	x.Quiet()
+	if err := x.S.SetOption(mangos.OptionReadQLen, qs[0]); err != nil {
+		kit.Failf("qlen-refused", "Socket.SetOption(ReadQLen,%d): %s", qs[0], kit.ErrName(err))
+	}
+	c, err := x.S.OpenContext()
+	if err != nil {
+		kit.Failf("setup", "OpenContext: %s", kit.ErrName(err))
+	}
+	if err := c.SetOption(mangos.OptionReadQLen, qs[1]); err != nil {
+		kit.Failf("qlen-refused", "Context.SetOption(ReadQLen,%d): %s", qs[1], kit.ErrName(err))
+	}
+	if v, err := x.S.GetOption(mangos.OptionReadQLen); err != nil || v != qs[0] {
+		kit.Failf("get-after-set:surveyor:READQ-LEN", "socket ReadQLen set to %d, GetOption answers %v (%s) after the context's was set to %d", qs[0], v, kit.ErrName(err), qs[1])
+	}
+	if v, err := c.GetOption(mangos.OptionReadQLen); err != nil || v != qs[1] {
+		kit.Failf("get-after-set:surveyor.ctx:READQ-LEN", "context ReadQLen set to %d, GetOption answers %v (%s)", qs[1], v, kit.ErrName(err))
+	}
+	q, who := qs[0], "surveyor"
+	recv := func() (string, error) { return x.Recv() }
+	if onCtx {
+		x.Ctx = c
+		q, who = qs[1], "surveyor.ctx"
+		recv = func() (string, error) { b, err := kit.Recv(c); return string(b), err }
+	}
+	x.PrepRecv() // starts the survey
+	n := 7
+	for i := 0; i < n; i++ {
+		if !x.Feed(fmt.Sprintf("response-%d", i)) {
+			kit.Failf("setup", "cannot build a response")
+		}
+		kit.Quiesce()
+	}
+	var got []string
+	for {
+		rc := kit.Start("Recv", func() (interface{}, error) { return recv() })
+		kit.Quiesce()
+		if !rc.Done() {
+			break
+		}
+		if rc.Err != nil {
+			kit.Failf("qlen-recv", "%s: Recv: %s", who, kit.ErrName(rc.Err))
+		}
+		got = append(got, rc.Val.(string))
+		if len(got) > n {
+			break
+		}
+	}
+	if len(got) != q {
+		kit.Failf("qlen-not-in-effect:"+who, "%s: ReadQLen %d (socket %d, context %d; GetOption agrees), %d responses arrived with nobody receiving: %d were kept (%q)", who, q, qs[0], qs[1], n, len(got), got)
+	}
+	kit.Count("responses-kept-up-to-qlen")
+	kit.Observe("%v %s", qs, who)
+	kit.Must("Close", func() { _ = x.S.Close() })
 }
